@@ -4,6 +4,7 @@ import os
 import tempfile
 from engine.ob import REPO_SRC  # noqa: E402
 from engine.ob import pick as _pick, flag as _flag  # noqa: F401
+from engine.ob import need
 from engine.ob import Obligation, post, reset_tally_caches
 
 LEVEL = 'other'
@@ -75,6 +76,7 @@ def run_command(cmd, root, migrate=True):
     from tally.config_loader import load_config
     cfgdir = os.path.join(root, 'config')
     if cmd == 'up':
+        need(hasattr(cli, '_check_merchant_migration'), 'cli._check_merchant_migration is gone: the migration step of `tally up` cannot be driven on its own')
         cfg = load_config(cfgdir)
         return _quiet(cli._check_merchant_migration, cfg, cfgdir, True, migrate)
     if cmd == 'init':
@@ -93,6 +95,7 @@ def classify(root):
     from tally import cli, merchant_utils
     from tally.config_loader import load_config
     reset_tally_caches()
+    need(hasattr(cli, '_check_merchant_migration'), 'cli._check_merchant_migration is gone: what plain `tally up` loads cannot be obtained')
     try:
         cfgdir = os.path.join(root, 'config')
         cfg = load_config(cfgdir)
